@@ -14,7 +14,7 @@ import sys
 import numpy as np
 
 sys.path.insert(0, os.path.dirname(os.path.dirname(os.path.abspath(__file__))))
-from translate import startvalues  # noqa: E402
+from translate import startvalues, kernels, c09_kernels  # noqa: E402
 from harness import gen, drive  # noqa: E402
 
 CLAIM = {
@@ -32,7 +32,8 @@ CLAIM = {
     "technique": "Coq proof (graph uniqueness theorem over R) + generated source facts + differential monitor",
     "design": "DESIGN.md 4/C08 + design_notes/C08.md",
 }
-GEN = [("StartValueUses", startvalues.generate)]
+GEN = [("StartValueUses", startvalues.generate)] + kernels.gen_entries(["KHydIncompNp", "KHydIncompNb"]) + \
+    [("KCalcLambda", c09_kernels.generate)]
 
 TIGHT = dict(tol_p=1e-9, tol_m=1e-9, tol_res=1e-6, iter=200)
 
@@ -72,10 +73,11 @@ def run(ctx):
                          "in bidirectional mode) and with nonlinear_method automatic vs constant; a case = (net, variant); "
                          "non-trivial = both runs converged and the net has a mesh, parallel branch, pump/compressor, "
                          "controller or more than one pressure-fixing element")
-    try:
-        ctx.gen("StartValueUses", startvalues.generate())
-    except Exception as e:
-        ctx.broken("translator", "tools/translate/startvalues.py", repr(e))
+    for name, fn in GEN:
+        try:
+            ctx.gen(name, fn())
+        except Exception as e:
+            ctx.broken("translator", name, repr(e))
     proved = ctx.prove("C08")
     n_nets = 24 if ctx.quick else 400
     rng = ctx.rng
